@@ -17,8 +17,11 @@ REPO = os.environ.get("VERIF_REPO", "/repo")
 LEAN_DIR = os.path.join(ROOT, "lean")
 HARNESS = os.path.join(ROOT, "harness")
 SCRATCH = os.path.join(ROOT, "scratch")
-EVIDENCE = os.path.join(ROOT, "evidence")
-REPLAYS = os.path.join(ROOT, "replays")
+# bin/seedtest and bin/seedall run the checks against a deliberately broken /repo: their evidence and replays go to scratch
+# (VERIF_SEEDED=1), so that the committed evidence is always that of the unchanged tree
+_SEEDED = os.environ.get("VERIF_SEEDED") == "1"
+EVIDENCE = os.path.join(ROOT, "scratch", "seeded-evidence") if _SEEDED else os.path.join(ROOT, "evidence")
+REPLAYS = os.path.join(ROOT, "scratch", "seeded-replays") if _SEEDED else os.path.join(ROOT, "replays")
 ALLOWED_AXIOMS = {"propext", "Classical.choice", "Quot.sound"}
 
 GOENV = dict(os.environ, GOFLAGS="-mod=mod", GOPROXY="off", GOSUMDB="off", GOTOOLCHAIN="local",
